@@ -40,7 +40,9 @@ constexpr auto atanh_check(T const x) noexcept -> T
         is_nan(x) ? etl::numeric_limits<T>::quiet_NaN() :
                   // function is defined for |x| < 1
             T(1) < abs(x)                                     ? etl::numeric_limits<T>::quiet_NaN()
-        : etl::numeric_limits<T>::epsilon() > (T(1) - abs(x)) ? sgn(x) * etl::numeric_limits<T>::infinity()
+                                                                // the poles are exactly +-1 (1 - 2^-24 is an ordinary
+                                                                // argument: atanh = 8.66)
+        : T(1) == abs(x) ? sgn(x) * etl::numeric_limits<T>::infinity()
                                                               :
                                                               // atanh(x) = x + x^3/3 + ...: indistinguishable from x
             etl::numeric_limits<T>::epsilon() > abs(x) ? x
